@@ -174,6 +174,9 @@ def build(case):
     with warnings.catch_warnings():
         warnings.simplefilter("ignore")  # "No FixCom constraint found"
         fb = ForceBias(atoms, delta, float(case["T"]), seed=int(case["seed"]))
+    if case.get("power_first"):
+        # an EARLIER assignment (every element named, other powers): the last assignment decides, nothing of this one stays
+        fb.masses_scaling_power = {k: float(v) for k, v in case["power_first"].items()}
     pw = case["power"]
     if pw["kind"] == "float":
         fb.masses_scaling_power = float(pw["value"])
@@ -291,6 +294,9 @@ class FBStep(common.Suite):
             else:
                 els = sorted(set(symbols))
                 power = {"kind": "dict", "value": {e: rng.choice([0.0, 1.0, rng.random()]) for e in els if rng.random() < 0.8}}
+            power_first = None
+            if power is not None and power["kind"] in ("dict", "float") and rng.random() < 0.4:
+                power_first = {e: rng.choice([0.0, 1.0, 0.6, rng.random()]) for e in sorted(set(symbols))}
             masses = None
             if rng.random() < 0.2:
                 masses = [rng.uniform(1.0, 240.0) for _ in range(nat)]
@@ -303,6 +309,7 @@ class FBStep(common.Suite):
                 "delta": delta,
                 "T": 10.0 ** rng.uniform(0, 4),
                 "power": power,
+                "power_first": power_first,
                 "seed": rng.randint(1, 2**31 - 1),
                 "inject": rng.choice([0, 0, 0.02, 0.2]),
                 "stubborn": rng.choice([0, 0, 0, 0, 18, 40]),
